@@ -17,7 +17,7 @@ Variable ss0 : symbol_sel.
 Hypothesis ss0_good : ss_good ss0.
 Hypothesis ss0_fresh : ss_cursor ss0 = None.
 
-Notation EInv := (Inv md_ops lay_ops md_fine ss0).
+Notation EInv := (Inv mdf_ops lay_ops md_fine ss0).
 
 Record CInv (c : cctx) : Prop := { ci_ed : EInv (cx_ed c); ci_kb : (cx_kb c < n_keyboard)%N }.
 
@@ -32,24 +32,24 @@ Definition cop_fine (o : cop) : Prop :=
 Let lay_alt_stable : forall x c, so_alt lay_ops (so_clear lay_ops x) c = so_alt lay_ops x c.
 Proof. intros [L s] c. reflexivity. Qed.
 
-Let md_lookup_nil : forall d f, md_fine d -> do_lookup md_ops d f [] = [].
-Proof. intros d f H. apply md_ok_lookup. now apply md_fine_ok. Qed.
-Let md_text : forall d f k p, md_fine d -> In p (do_lookup md_ops d f k) -> fst p <> [].
-Proof. intros d f k p. apply md_fine_text. Qed.
-Let md_freq : forall d f k p, md_fine d -> In p (do_lookup md_ops d f k) -> (snd p < 4000000000)%N.
-Proof. intros d f k p. apply md_fine_freq. Qed.
+Let md_lookup_nil : forall d f, md_fine d -> do_lookup mdf_ops d f [] = [].
+Proof. intros d f H. apply mdf_ok_lookup. now apply md_fine_ok. Qed.
+Let md_text : forall d f k p, md_fine d -> In p (do_lookup mdf_ops d f k) -> fst p <> [].
+Proof. intros d f k p. apply mdf_fine_text. Qed.
+Let md_freq : forall d f k p, md_fine d -> In p (do_lookup mdf_ops d f k) -> (snd p < 4000000000)%N.
+Proof. intros d f k p. apply mdf_fine_freq. Qed.
 
-Lemma e_fine_step e o : op_fine o -> EInv e -> fine (step md_ops lay_ops conv e o).
+Lemma e_fine_step e o : op_fine o -> EInv e -> fine (step mdf_ops lay_ops conv e o).
 Proof.
   intros Ho Hi.
-  exact (fine_step md_ops lay_ops conv md_fine md_lookup_nil md_fine_add md_fine_update ss0 ss0_good ss0_fresh
+  exact (fine_step mdf_ops lay_ops conv md_fine md_lookup_nil mdf_fine_add mdf_fine_update ss0 ss0_good ss0_fresh
                    md_text md_freq conv_tiles e o Ho Hi).
 Qed.
 
-Lemma e_step_inv e o e' : op_fine o -> EInv e -> step md_ops lay_ops conv e o = Ok e' -> EInv e'.
+Lemma e_step_inv e o e' : op_fine o -> EInv e -> step mdf_ops lay_ops conv e o = Ok e' -> EInv e'.
 Proof.
   intros Ho Hi H.
-  exact (step_inv md_ops lay_ops conv md_fine md_lookup_nil md_fine_add md_fine_update md_fine_remove lay_alt_stable
+  exact (step_inv mdf_ops lay_ops conv md_fine md_lookup_nil mdf_fine_add mdf_fine_update mdf_fine_remove lay_alt_stable
                   ss0 ss0_good ss0_fresh e o e' (op_fine_ok o Ho) Hi H).
 Qed.
 
@@ -58,11 +58,11 @@ Proof. reflexivity. Qed.
 
 (* a key event handed to the editor: as the editor operation OpKey *)
 Lemma press_is_step c ev : press conv c (Ok ev) =
-  match step md_ops lay_ops conv (cx_ed c) (OpKey (of_key_event ev)) with
+  match step mdf_ops lay_ops conv (cx_ed c) (OpKey (of_key_event ev)) with
   | Ok e => Ok (with_ed c e) | Err x => Err x | Panic s => Panic s | OutOfFuel => OutOfFuel end.
 Proof.
   unfold press, ml_key. cbn [step]. unfold fst_ok.
-  destruct (process_keyevent md_ops lay_ops conv (cx_ed c) (of_key_event ev)) as [[e b]| | |]; reflexivity.
+  destruct (process_keyevent mdf_ops lay_ops conv (cx_ed c) (of_key_event ev)) as [[e b]| | |]; reflexivity.
 Qed.
 
 Lemma press_ok c ev : CInv c -> event_ok (ed_event ev) ->
@@ -70,7 +70,7 @@ Lemma press_ok c ev : CInv c -> event_ok (ed_event ev) ->
 Proof.
   intros [Hi Hk] Hev. rewrite press_is_step, of_key_event_is_ed_event.
   pose proof (e_fine_step (cx_ed c) (OpKey (ed_event ev)) Hev Hi) as F.
-  destruct (step md_ops lay_ops conv (cx_ed c) (OpKey (ed_event ev))) as [e| | |] eqn:Es; try exact F; try (split; [exact F | discriminate]).
+  destruct (step mdf_ops lay_ops conv (cx_ed c) (OpKey (ed_event ev))) as [e| | |] eqn:Es; try exact F; try (split; [exact F | discriminate]).
   split; [exact I|]. intros c' H. inversion H; subst c'. constructor; [|exact Hk].
   eapply e_step_inv; [| exact Hi | exact Es]. exact Hev.
 Qed.
@@ -124,7 +124,7 @@ Proof.
   assert (H1 : EInv e1) by (eapply (e_step_inv (cx_ed c) (OpSetEngine (engine_of_N eng'))); [exact I | exact Hi | reflexivity]).
   unfold ml_set_options.
   pose proof (e_fine_step e1 (OpSetOptions (to_ed_options op')) Hper H1) as F. cbn [step] in F.
-  destruct (ed_set_options_c md_ops lay_ops e1 (to_ed_options op')) as [e2| | |] eqn:Es; try (split; [exact F | intros c' rc H; discriminate H]).
+  destruct (ed_set_options_c mdf_ops lay_ops e1 (to_ed_options op')) as [e2| | |] eqn:Es; try (split; [exact F | intros c' rc H; discriminate H]).
   split; [exact I|]. intros c' rc H. inversion H; subst c' rc. constructor; cbn [cx_ed cx_kb with_ed]; [|exact Hk].
   eapply (e_step_inv e1 (OpSetOptions (to_ed_options op'))); [exact Hper | exact H1 | exact Es].
 Qed.
@@ -161,7 +161,7 @@ Proof.
     set (t := match known with Some r => (Z.to_N n, r, 0%Z) | None => (KB_Default, (init_keyboard, init_syllable_editor), (-1)%Z) end).
     destruct t as [[kbn row] rc]. unfold ml_set_layout.
     pose proof (e_fine_step (cx_ed c) (OpLayout (layout_number (snd row))) I Hi) as F. cbn [step] in F.
-    destruct (ed_set_layout md_ops lay_ops (cx_ed c) (layout_number (snd row))) as [e| | |] eqn:Es; cbn [drop_rc fst]; try (split; [exact F | intros c' H; discriminate H]).
+    destruct (ed_set_layout mdf_ops lay_ops (cx_ed c) (layout_number (snd row))) as [e| | |] eqn:Es; cbn [drop_rc fst]; try (split; [exact F | intros c' H; discriminate H]).
     split; [exact I|]. intros c' H. inversion H; subst c'. constructor; cbn [cx_ed cx_kb]; [|apply keyboard_number_lt].
     eapply (e_step_inv (cx_ed c) (OpLayout (layout_number (snd row)))); [exact I | exact Hi | exact Es].
   - (* chewing_set_selKey *)
@@ -169,13 +169,13 @@ Proof.
   - (* chewing_cand_choose_by_index, any int *)
     unfold cand_choose, ml_select.
     pose proof (e_fine_step (cx_ed c) (OpSelect (choose_index (cx_ed c) i)) I Hi) as F. cbn [step] in F. unfold fst_ok in F.
-    destruct (ed_select md_ops lay_ops conv (cx_ed c) (choose_index (cx_ed c) i)) as [[e b]| | |] eqn:Es; cbn [drop_rc fst]; try (split; [exact F | intros c' H; discriminate H]).
+    destruct (ed_select mdf_ops lay_ops conv (cx_ed c) (choose_index (cx_ed c) i)) as [[e b]| | |] eqn:Es; cbn [drop_rc fst]; try (split; [exact F | intros c' H; discriminate H]).
     split; [exact I|]. intros c' H. inversion H; subst c'. constructor; cbn [cx_ed cx_kb]; [|exact Hk].
     eapply (e_step_inv (cx_ed c) (OpSelect (choose_index (cx_ed c) i))); [exact I | exact Hi |]. cbn [step]. now rewrite Es.
   - (* chewing_cand_open *)
     unfold cand_open, ml_start_selecting.
     pose proof (e_fine_step (cx_ed c) OpStart I Hi) as F. cbn [step] in F. unfold fst_ok in F.
-    destruct (ed_start_selecting md_ops lay_ops (cx_ed c)) as [[e b]| | |] eqn:Es; cbn [drop_rc fst]; try (split; [exact F | intros c' H; discriminate H]).
+    destruct (ed_start_selecting mdf_ops lay_ops (cx_ed c)) as [[e b]| | |] eqn:Es; cbn [drop_rc fst]; try (split; [exact F | intros c' H; discriminate H]).
     split; [exact I|]. intros c' H. inversion H; subst c'. constructor; cbn [cx_ed cx_kb]; [|exact Hk].
     eapply (e_step_inv (cx_ed c) OpStart); [exact I | exact Hi |]. cbn [step]. now rewrite Es.
   - (* chewing_cand_close *)
@@ -185,18 +185,18 @@ Proof.
     unfold cand_list. destruct (negb (is_selecting_b (cx_ed c))); [split; [exact I | intros c' H; inversion H; subst; exact Hc]|].
     set (o := match which with 0%N => OpJumpFirst | 1%N => OpJumpLast | 2%N => OpJumpNext | _ => OpJumpPrev end).
     pose proof (e_fine_step (cx_ed c) o ltac:(destruct which as [|[p|[p|p|]|]]; exact I) Hi) as F.
-    assert (Es : step md_ops lay_ops conv (cx_ed c) o =
-                 fst_ok (match which with 0%N => ml_jump_first (cx_ed c) | 1%N => ml_jump_last (cx_ed c) | 2%N => ml_jump_next (cx_ed c) | _ => ml_jump_prev (cx_ed c) end))
+    assert (Es : step mdf_ops lay_ops conv (cx_ed c) o =
+                 fst_ok (match which with 0%N => ml_jump_first mdf_ops (cx_ed c) | 1%N => ml_jump_last mdf_ops (cx_ed c) | 2%N => ml_jump_next mdf_ops (cx_ed c) | _ => ml_jump_prev mdf_ops (cx_ed c) end))
       by (unfold o; destruct which as [|[p|[p|p|]|]]; reflexivity).
     rewrite Es in F. unfold fst_ok in F.
-    destruct (match which with 0%N => ml_jump_first (cx_ed c) | 1%N => ml_jump_last (cx_ed c) | 2%N => ml_jump_next (cx_ed c) | _ => ml_jump_prev (cx_ed c) end)
+    destruct (match which with 0%N => ml_jump_first mdf_ops (cx_ed c) | 1%N => ml_jump_last mdf_ops (cx_ed c) | 2%N => ml_jump_next mdf_ops (cx_ed c) | _ => ml_jump_prev mdf_ops (cx_ed c) end)
       as [[e b]| | |] eqn:Ej; cbn [drop_rc fst]; try (split; [exact F | intros c' H; discriminate H]).
     split; [exact I|]. intros c' H. inversion H; subst c'. constructor; cbn [cx_ed cx_kb with_ed]; [|exact Hk].
     eapply (e_step_inv (cx_ed c) o); [destruct which as [|[p|[p|p|]|]]; exact I | exact Hi |]. rewrite Es. unfold fst_ok. reflexivity.
   - (* chewing_commit_preedit_buf *)
     unfold commit_preedit, ml_commit.
     pose proof (e_fine_step (cx_ed c) OpCommit I Hi) as F. cbn [step] in F. unfold fst_ok in F.
-    destruct (ed_commit md_ops conv (cx_ed c)) as [[e b]| | |] eqn:Es; cbn [drop_rc fst]; try (split; [exact F | intros c' H; discriminate H]).
+    destruct (ed_commit mdf_ops conv (cx_ed c)) as [[e b]| | |] eqn:Es; cbn [drop_rc fst]; try (split; [exact F | intros c' H; discriminate H]).
     split; [exact I|]. intros c' H. inversion H; subst c'. constructor; cbn [cx_ed cx_kb]; [|exact Hk].
     eapply (e_step_inv (cx_ed c) OpCommit); [exact I | exact Hi |]. cbn [step]. now rewrite Es.
   - (* chewing_clean_preedit_buf *)
@@ -216,19 +216,19 @@ Proof.
     unfold userphrase_add. destruct (Nat.ltb 11 _); [split; [exact I | intros c' H; inversion H; subst; exact Hc]|].
     unfold ml_learn.
     pose proof (e_fine_step (cx_ed c) (OpLearn (parse_bopomofo bopomofo) phrase) I Hi) as F. cbn [step] in F. unfold fst_ok in F.
-    destruct (ed_learn_c md_ops lay_ops (cx_ed c) (parse_bopomofo bopomofo) phrase) as [[e b]| | |] eqn:Es; cbn [drop_rc fst]; try (split; [exact F | intros c' H; discriminate H]).
+    destruct (ed_learn_c mdf_ops lay_ops (cx_ed c) (parse_bopomofo bopomofo) phrase) as [[e b]| | |] eqn:Es; cbn [drop_rc fst]; try (split; [exact F | intros c' H; discriminate H]).
     split; [exact I|]. intros c' H. inversion H; subst c'. constructor; cbn [cx_ed cx_kb with_ed]; [|exact Hk].
     eapply (e_step_inv (cx_ed c) (OpLearn (parse_bopomofo bopomofo) phrase)); [exact I | exact Hi |]. cbn [step]. now rewrite Es.
   - (* chewing_userphrase_remove *)
     unfold userphrase_remove. destruct (negb _); [split; [exact I | intros c' H; inversion H; subst; exact Hc]|].
     unfold ml_unlearn.
     pose proof (e_fine_step (cx_ed c) (OpUnlearn (parse_bopomofo bopomofo) phrase) I Hi) as F. cbn [step] in F.
-    destruct (ed_unlearn_c md_ops lay_ops (cx_ed c) (parse_bopomofo bopomofo) phrase) as [e| | |] eqn:Es; cbn [drop_rc fst]; try (split; [exact F | intros c' H; discriminate H]).
+    destruct (ed_unlearn_c mdf_ops lay_ops (cx_ed c) (parse_bopomofo bopomofo) phrase) as [e| | |] eqn:Es; cbn [drop_rc fst]; try (split; [exact F | intros c' H; discriminate H]).
     split; [exact I|]. intros c' H. inversion H; subst c'. constructor; cbn [cx_ed cx_kb with_ed]; [|exact Hk].
     eapply (e_step_inv (cx_ed c) (OpUnlearn (parse_bopomofo bopomofo) phrase)); [exact I | exact Hi | exact Es].
   - (* an operation of the editor itself *)
     pose proof (e_fine_step (cx_ed c) o Ho Hi) as F.
-    destruct (step md_ops lay_ops conv (cx_ed c) o) as [e| | |] eqn:Es; try (split; [exact F | intros c' H; discriminate H]).
+    destruct (step mdf_ops lay_ops conv (cx_ed c) o) as [e| | |] eqn:Es; try (split; [exact F | intros c' H; discriminate H]).
     split; [exact I|]. intros c' H. inversion H; subst c'. constructor; cbn [cx_ed cx_kb with_ed]; [|exact Hk].
     eapply e_step_inv; eassumption.
 Qed.
